@@ -78,6 +78,16 @@ class State:
         self.writes = set()
         self.trace = []
         self.depth = 0
+        self.memo = {}
+        self.facts = set()
+
+    def heap_sig(self):
+        """Signature of the heap contents (initial arrays, created lazily on first read, do not count)."""
+        def pristine(k, v):
+            return z3.is_const(v) and v.decl().kind() == z3.Z3_OP_UNINTERPRETED and v.decl().name() == f"H0_{k}"
+        return hash(tuple(sorted((k, v.get_id()) for k, v in self.heap.items() if not pristine(k, v)))
+                    + tuple(sorted((k, v.term.get_id()) for k, v in self.ghost.items()
+                                   if isinstance(v, V) and not str(v.term).endswith("0"))))
 
     def copy(self):
         s = State.__new__(State)
@@ -90,6 +100,8 @@ class State:
         s.writes = set(self.writes)
         s.trace = list(self.trace)
         s.depth = self.depth
+        s.memo = dict(self.memo)
+        s.facts = set(self.facts)
         return s
 
     @property
@@ -97,6 +109,15 @@ class State:
         return self.frames[-1]
 
     def assume(self, c):
+        """Add a fact (definitional axiom, contract post-condition, invariant assumption) to the path."""
+        if isinstance(c, bool):
+            c = z3.BoolVal(c)
+        if not z3.is_true(c):
+            self.pc.append(c)
+            self.facts.add(c.get_id())
+
+    def guard(self, c):
+        """Add a branch condition to the path."""
         if isinstance(c, bool):
             c = z3.BoolVal(c)
         if not z3.is_true(c):
@@ -302,17 +323,17 @@ class Engine:
             if self.stats["forks"] > self.max_paths:
                 raise Untranslatable("path limit exceeded")
             st2 = st.copy()
-            st.assume(c)
+            st.guard(c)
             st.trace.append(f"{label}:T")
             yield st, True
-            st2.assume(z3.Not(c))
+            st2.guard(z3.Not(c))
             st2.trace.append(f"{label}:F")
             yield st2, False
         elif t_ok:
-            st.assume(c)
+            st.guard(c)
             yield st, True
         elif f_ok:
-            st.assume(z3.Not(c))
+            st.guard(z3.Not(c))
             yield st, False
         # both infeasible: dead path
 
@@ -598,6 +619,18 @@ class Engine:
 
     def ev_BoolOp(self, e, st):
         is_and = isinstance(e.op, ast.And)
+        if self.no_prune:
+            # pure (spec) evaluation: merge every operand instead of forking (keeps formulas linear in size)
+            terms = []
+            cur = st
+            ok = True
+            for operand in e.values:
+                v = self.ev_merged(operand, cur, want_bool=True)
+                terms.append(v.term)
+                cur = cur.copy()
+                cur.guard(v.term if is_and else z3.Not(v.term))
+            yield st, V(BOOL, z3.And(terms) if is_and else z3.Or(terms))
+            return
 
         def rec(i, st):
             for st1, v in self.ev(e.values[i], st):
@@ -610,7 +643,6 @@ class Engine:
                         yield from rec(i + 1, st2)
                     else:
                         yield st2, v
-        # fast path: pure SMT booleans without side effects -> single merged term
         yield from rec(0, st)
 
     def ev_UnaryOp(self, e, st):
@@ -703,6 +735,10 @@ class Engine:
         return dflt(self, st, obj)
 
     def nonnull(self, obj, st, node, cont):
+        if self.no_prune:
+            # pure (spec) evaluation: heap arrays are total, dereferencing is not forked
+            yield from cont(st)
+            return
         for st1, ok in self.fork(st, obj.term != NULL, f"nonnull@{getattr(node, 'lineno', '?')}"):
             if ok:
                 yield from cont(st1)
@@ -1290,9 +1326,31 @@ class Engine:
             # dead: the current path is infeasible
             return V(BOOL, z3.BoolVal(True)) if want_bool else None
         cases = []
+        hoisted = []
         for st1, v in outs:
-            guard = z3.And(st1.pc[base:]) if len(st1.pc) > base else z3.BoolVal(True)
+            guards = []
+            for c in st1.pc[base:]:
+                if c.get_id() in st1.facts:
+                    hoisted.append(z3.Implies(z3.And(guards), c) if guards else c)
+                else:
+                    guards.append(c)
+            guard = z3.And(guards) if guards else z3.BoolVal(True)
             cases.append((guard, v))
+        for st1, _exc in sink:
+            guards = []
+            for c in st1.pc[base:]:
+                if c.get_id() in st1.facts:
+                    hoisted.append(z3.Implies(z3.And(guards), c) if guards else c)
+                else:
+                    guards.append(c)
+        seen = set()
+        for h in hoisted:
+            if h.get_id() not in seen:
+                seen.add(h.get_id())
+                st.assume(h)
+        for st1, _ in outs:
+            for k, v in st1.memo.items():
+                st.memo.setdefault(k, v)
         if want_bool:
             # exceptions inside a spec expression make it false
             terms = [z3.And(g, self.truth(v)) for g, v in cases]
